@@ -15,7 +15,7 @@ Definition lrec_ok (c : cfg) (ldk k : Z) (r : lrec) : Prop :=
   lr_keys r <> [] /\ sortedb (lr_keys r) = true /\ Forall (key_ok (c_kt c)) (lr_keys r) /\
   0 <= lr_eps r /\
   concat (lr_g r) = fed_spec (c_kt c) (lr_keys r) /\
-  Lv c (lr_eps r) (EvalOK c k) (lr_css r) (lr_g r) (lr_new r) /\
+  Lv c (lr_eps r) (EvalOKc (zlen (lr_keys r) + lr_eps r) c k) (lr_css r) (lr_g r) (lr_new r) /\
   tail_ok c ldk (zlen (lr_keys r)) (lr_new r) (lr_T r) (lr_ln r) (zlen (lr_new r)).
 
 Definition link (c : cfg) (r r' : lrec) : Prop :=
@@ -280,6 +280,45 @@ Definition float_ok (c : cfg) (data : list Z) (k : Z) : Prop :=
   | Err _ => True
   end.
 
+(* the same with the cap disjunct (IdxLevel.level_float_ok_cap): what the proofs consume *)
+Fixpoint upper_float_ok_cap (c : cfg) (fuel : nat) (ldk : Z) (segs : list segment) (offs : list Z)
+         (last_n : Z) (k : Z) : Prop :=
+  if (c_epsrec c =? 0) || (last_n <=? 1) then True else
+  match fuel with
+  | O => True
+  | S f =>
+      let offset := nth (length offs - 2) offs 0 in
+      let keys := map sg_key (firstn (Z.to_nat last_n) (skipn (Z.to_nat offset) segs)) in
+      level_float_ok_cap c (c_epsrec c) keys ldk k /\
+      match build_level c (c_epsrec c) keys last_n ldk segs with
+      | Ok (segs1, ln1) => upper_float_ok_cap c f ldk segs1 (offs ++ [zlen segs1]) ln1 k
+      | Err _ => True
+      end
+  end.
+
+Definition float_ok_cap (c : cfg) (data : list Z) (k : Z) : Prop :=
+  level_float_ok_cap c (c_eps c) data (last_z data) k /\
+  match build_level c (c_eps c) data (zlen data) (last_z data) [] with
+  | Ok (segs, ln) => upper_float_ok_cap c (length data + 2) (last_z data) segs [0; zlen segs] ln k
+  | Err _ => True
+  end.
+
+Lemma upper_float_ok_cap_of c ldk k : forall fuel segs offs ln,
+  upper_float_ok c fuel ldk segs offs ln k -> upper_float_ok_cap c fuel ldk segs offs ln k.
+Proof.
+  induction fuel as [|f IH]; intros segs offs ln H; cbn [upper_float_ok upper_float_ok_cap] in *.
+  - destruct ((c_epsrec c =? 0) || (ln <=? 1)); exact I.
+  - destruct ((c_epsrec c =? 0) || (ln <=? 1)); [exact I|]. destruct H as [H1 H2].
+    split; [apply level_float_ok_cap_of; exact H1|].
+    destruct (build_level _ _ _ _ _ _) as [[segs1 ln1]|e]; [apply IH; exact H2 | exact I].
+Qed.
+
+Lemma float_ok_cap_of c data k : float_ok c data k -> float_ok_cap c data k.
+Proof.
+  intros [H1 H2]. split; [apply level_float_ok_cap_of; exact H1|].
+  destruct (build_level _ _ _ _ _ _) as [[segs ln]|e]; [apply upper_float_ok_cap_of; exact H2 | exact I].
+Qed.
+
 Lemma build_level_grows c eps keys ln ldk segs0 segs ln' :
   build_level c eps keys ln ldk segs0 = Ok (segs, ln') -> exists more, segs = segs0 ++ more.
 Proof.
@@ -314,7 +353,7 @@ Lemma build_upper_step c ldk k r rl segs1 ln1 :
   1 <= kbits (c_kt c) -> 1 <= c_par c -> 0 <= c_epsrec c ->
   lrec_ok c ldk k r -> 1 < lr_ln r -> lr_ln r + c_epsrec c < 2 ^ 64 - 1 ->
   let keys' := map sg_key (firstn (Z.to_nat (lr_ln r)) (lr_L r)) in
-  level_float_ok c (c_epsrec c) keys' ldk k ->
+  level_float_ok_cap c (c_epsrec c) keys' ldk k ->
   build_level c (c_epsrec c) keys' (lr_ln r) ldk (below (r :: rl)) = Ok (segs1, ln1) ->
   exists r', lrec_ok c ldk k r' /\ link c r r' /\ segs1 = below (r' :: r :: rl) /\ lr_ln r' = ln1.
 Proof.
@@ -326,7 +365,7 @@ Proof.
   destruct (build_level_desc _ _ _ _ _ _ _ H Hpar Hne' Hs' Hw' ltac:(lia))
     as (css & fed & cnt & g & new & T & M1 & M2 & Es & Hcat & F1 & F2 & He & Htail).
   destruct (Hfl css fed cnt new M1 M2) as [Fev _].
-  pose proof (Lv_of_Forall2 c (c_epsrec c) (EvalOK c k) css g new F1 F2 Fev) as HL.
+  pose proof (Lv_of_Forall2 c (c_epsrec c) (EvalOKc (zlen keys' + c_epsrec c) c k) css g new F1 F2 Fev) as HL.
   destruct (Lv_first_key c _ _ (c_kt c) keys' css g new Hne' Hcat HL) as [Hnn _].
   exists (mkL keys' (c_epsrec c) css g new T ln1).
   split; [|split; [|split; [|reflexivity]]].
@@ -343,7 +382,7 @@ Lemma build_upper_chain c ldk k :
   1 <= kbits (c_kt c) -> 1 <= c_par c -> 0 <= c_epsrec c -> c_epsrec c + 2 ^ 32 < 2 ^ 64 - 1 ->
   forall fuel rl r segsF offsF,
     chainR c ldk k (r :: rl) ->
-    upper_float_ok c fuel ldk (below (r :: rl)) (offs_of (r :: rl)) (lr_ln r) k ->
+    upper_float_ok_cap c fuel ldk (below (r :: rl)) (offs_of (r :: rl)) (lr_ln r) k ->
     build_upper c fuel ldk (below (r :: rl)) (offs_of (r :: rl)) (lr_ln r) = Ok (segsF, offsF) ->
     zlen segsF < 2 ^ 32 ->
     exists up, chainR c ldk k (up ++ r :: rl) /\ segsF = below (up ++ r :: rl) /\
@@ -354,7 +393,7 @@ Proof.
   - cbn [build_upper] in H. destruct ((c_epsrec c =? 0) || (lr_ln r <=? 1)) eqn:Ec; [|discriminate H].
     injection H as <- <-. exists []. cbn [app hd]. split; [exact Hch|]. split; [reflexivity|]. split; [reflexivity|].
     intros Hne. apply orb_true_iff in Ec. destruct Ec as [Ec|Ec]; lia.
-  - cbn [build_upper upper_float_ok] in H, Hfl.
+  - cbn [build_upper upper_float_ok_cap] in H, Hfl.
     destruct ((c_epsrec c =? 0) || (lr_ln r <=? 1)) eqn:Ec.
     { injection H as <- <-. exists []. cbn [app hd]. split; [exact Hch|]. split; [reflexivity|]. split; [reflexivity|].
     intros Hne. apply orb_true_iff in Ec. destruct Ec as [Ec|Ec]; lia. }
@@ -386,7 +425,7 @@ Theorem build_chain_ext c data ix k :
   1 <= kbits (c_kt c) -> 1 <= c_par c -> 0 <= c_epsrec c -> c_epsrec c + 2 ^ 32 < 2 ^ 64 - 1 ->
   data <> [] -> sortedb data = true -> Forall (fun x => in_ktype (c_kt c) x = true) data ->
   last_z data < sentinel c -> zlen data + c_eps c < 2 ^ 64 - 1 ->
-  float_ok c data k -> build c data = Ok ix -> zlen (ix_segments ix) < 2 ^ 32 ->
+  float_ok_cap c data k -> build c data = Ok ix -> zlen (ix_segments ix) < 2 ^ 32 ->
   exists up r0,
     chainR c (last_z data) k (up ++ [r0]) /\ lr_keys r0 = data /\
     ix = mkIndex (zlen data) (hd 0 data) (below (up ++ [r0])) (offs_of (up ++ [r0])) /\
@@ -413,7 +452,7 @@ Proof.
     as (css & fed & cnt & g & new & T & M1 & M2 & Es & Hcat & F1 & F2 & He & Htail).
   cbn [app] in Es, Htail.
   destruct (Hf0 css fed cnt new M1 M2) as [Fev Fext].
-  pose proof (Lv_of_Forall2 c (c_eps c) (EvalOK c k) css g new F1 F2 Fev) as HL.
+  pose proof (Lv_of_Forall2 c (c_eps c) (EvalOKc (zlen data + c_eps c) c k) css g new F1 F2 Fev) as HL.
   set (r0 := mkL data (c_eps c) css g new T ln).
   assert (Hok0 : lrec_ok c (last_z data) k r0).
   { unfold lrec_ok, r0. cbn [lr_keys lr_eps lr_css lr_g lr_new lr_T lr_ln]. do 6 (split; [assumption|]). exact Htail. }
@@ -431,7 +470,7 @@ Theorem build_chain c data ix k :
   1 <= kbits (c_kt c) -> 1 <= c_par c -> 0 <= c_epsrec c -> c_epsrec c + 2 ^ 32 < 2 ^ 64 - 1 ->
   data <> [] -> sortedb data = true -> Forall (fun x => in_ktype (c_kt c) x = true) data ->
   last_z data < sentinel c -> zlen data + c_eps c < 2 ^ 64 - 1 ->
-  float_ok c data k -> build c data = Ok ix -> zlen (ix_segments ix) < 2 ^ 32 ->
+  float_ok_cap c data k -> build c data = Ok ix -> zlen (ix_segments ix) < 2 ^ 32 ->
   exists up r0,
     chainR c (last_z data) k (up ++ [r0]) /\ lr_keys r0 = data /\
     ix = mkIndex (zlen data) (hd 0 data) (below (up ++ [r0])) (offs_of (up ++ [r0])) /\
